@@ -23,7 +23,7 @@ def main(a):
     res = fmtparser.explore(tier, PROP)
     kf = common.KnownFindings()
     recs = res["records"]
-    bad = [r for r in recs if r["kind"] in ("panic", "memerr", "unreachable")]
+    bad = [r for r in recs if r["kind"] in ("panic", "memerr", "unreachable", "hang")]
     violations, known_lines, inconclusive = [], [], list(res["inconclusive"])
     replay_dir = os.path.join(common.REPLAY_DIR, PROP)
     os.makedirs(replay_dir, exist_ok=True)
@@ -45,7 +45,7 @@ def main(a):
         path = os.path.join(replay_dir, "%s.json" % key.replace("/", "_")[:60])
         json.dump({"property": PROP, "class": key, "literal": fmtparser.lit(s), "bytes": s["input"], "where": s.get("where"),
                    "native": s["native"], "paths_in_class": len(rs), "replay": "./check C18 --replay %s" % path}, open(path, "w"), indent=1)
-        violations.append((key, path, "the literal parser aborts on %r (%d paths)" % (fmtparser.lit(s), len(rs))))
+        violations.append((key, path, "the literal parser %s on %r (%d paths)" % ("does not return" if s["kind"] == "hang" else "aborts", fmtparser.lit(s), len(rs))))
     # ---- the argument scanner (impl/src/parsing.rs + FmtArgument): it must return on every token-tree sequence
     sres = scanner.explore(tier, PROP)
     inconclusive.extend(sres["inconclusive"])
